@@ -55,7 +55,7 @@ CONSTANTS
   Addrs = {1, 2, 3}
   Reqs = {1, 2}
   Successor = %(succ)s
-  Alphabet = "response"
+  Alphabet = "trace"
   Deviations = {}
 INVARIANTS TypeOK P_C10
 CONSTRAINT Track
@@ -78,6 +78,8 @@ def _scenario_class(run):
 
     def slot(s):
         d = [s.get("stage"), s.get("partial"), s.get("release")]
+        if s.get("flow"):          # stages of an exchange beyond "request, then response"
+            d.append(s["flow"])
         if s.get("resp"):          # response stages: how the response is framed, whether the backend closes, which stream
             d += [s["resp"].get("framing"), s["resp"].get("close"), bool(s.get("big_first")), bool(s.get("tcp_stall"))]
         return d
@@ -201,20 +203,34 @@ def run(tier, replay=None):
         ("mc_resp_softstop", MC_CFG % dict(rsp, spec="Spec", addrs=a_resp, succ="FALSE", checks=SAFETY)),
         ("live_resp_softstop", MC_CFG % dict(rsp, spec="FairSpec", addrs="a1, a2", succ="FALSE", checks="PROPERTIES P_C10d_StopTerminates")),
     ]
+    # ... and in the stages of an exchange with more steps than "request, then response" (body withheld until 100
+    # Continue, 103 Early Hints, upgrade handshake, early final response, a pipelined second request)
+    flw = dict(consts, alphabet="flow", dev="")
+    mc_jobs += [
+        ("mc_flow_handover", MC_CFG % dict(flw, spec="Spec", addrs=a_resp, succ="TRUE", checks=SAFETY)),
+        ("mc_flow_softstop", MC_CFG % dict(flw, spec="Spec", addrs=a_resp, succ="FALSE", checks=SAFETY)),
+        ("live_flow_softstop", MC_CFG % dict(flw, spec="FairSpec", addrs="a1, a2", succ="FALSE", checks="PROPERTIES P_C10d_StopTerminates")),
+    ]
     if thorough:
+        mc_jobs.append(("live_flow_handover", MC_CFG % dict(flw, spec="FairSpec", addrs="a1, a2", succ="TRUE", checks=LIVE)))
         mc_jobs.append(("live_resp_handover", MC_CFG % dict(rsp, spec="FairSpec", addrs="a1, a2", succ="TRUE", checks=LIVE)))
     pool = concurrent.futures.ThreadPoolExecutor(max_workers=4)
     futs = {}
     for name, text in mc_jobs:
         cfg = _write(wd, name + ".cfg", text)
         futs[name] = pool.submit(vlib.tlc, "Handover", cfg, PID, 3 if not thorough else 6, 2400, None, None,
-                                 name in ("mc_handover", "mc_resp_handover") and thorough)
+                                 name in ("mc_handover", "mc_resp_handover", "mc_flow_handover") and thorough)
 
     # self-test of P_C10b: the defect class "a session is taken for finished before its response is flushed"
     # (deviation QuiescedBeforeFlushed) must be refuted by TLC, else the response stages bind nothing
     dcfg = _write(wd, "dev_quiesced.cfg", MC_CFG % dict(consts, alphabet="response", dev='"QuiescedBeforeFlushed"', spec="Spec",
                                                         addrs="a1", succ="FALSE", checks="INVARIANTS TypeOK P_C10"))
     fut_dev = pool.submit(vlib.tlc, "Handover", dcfg, PID, 2, 600)
+    # self-test of the flow stages: the defect class "in a stopping worker the next complete message on a session
+    # with a request in flight - an interim response - ends the session" (deviation ClosedAfterInterim)
+    icfg = _write(wd, "dev_interim.cfg", MC_CFG % dict(consts, alphabet="flow", dev='"ClosedAfterInterim"', spec="Spec",
+                                                       addrs="a1", succ="FALSE", checks="INVARIANTS TypeOK P_C10"))
+    fut_dev2 = pool.submit(vlib.tlc, "Handover", icfg, PID, 2, 600)
 
     # ---- 3. codec leg
     gen_cfg = _write(wd, "codec_gen.cfg", CODEC_CFG % dict(consts, full="TRUE" if thorough else "FALSE", salt=vlib.seed() % 1000))
@@ -306,7 +322,29 @@ def run(tier, replay=None):
     if len(tails) >= 4 and len(held) * 2 < len(tails) and not rep.violations:
         raise vlib.ToolError("only %d of %d parked responses had their tail in the worker when the stop came: the response leg is vacuous on this run"
                              % (len(held), len(tails)))
-    for r in (good[:1] + resp_runs[:1]):
+    # exchanges with intermediate stages: in how many of them did the backend's next message (interim response,
+    # 101, early / first pipelined answer) leave after the stop was being processed and several passes had run
+    flow_runs = [r for r in good if any(s.get("flow") for s in r["cfg"].get("slots", []))]
+    gates = late_gates = interims_after_stop = 0
+    for r in flow_runs:
+        processing = False
+        late = set()
+        for e in r["ctl"]:
+            if e.get("e") == "StopResp" and e.get("status") == "Processing":
+                processing = True
+            elif e.get("e") == "GateOpen":
+                gates += 1
+                if processing and (e.get("ms_since_stop_sent") or 0) >= 300:
+                    late_gates += 1
+                    late.add(e.get("r"))
+            elif e.get("e") == "Interim" and e.get("r") in late:
+                interims_after_stop += 1
+    rep.extra["protocol"].update({"flow_scenarios": len(flow_runs), "flow_slots": gates, "flow_slots_released_after_stop": late_gates,
+                                  "interim_responses_after_stop": interims_after_stop})
+    if len(flow_runs) >= 4 and (late_gates * 2 < gates or interims_after_stop < 2) and not rep.violations:
+        raise vlib.ToolError("only %d of %d parked exchanges were let go after the stop (%d interim responses seen after it): the flow leg is vacuous on this run"
+                             % (late_gates, gates, interims_after_stop))
+    for r in (good[:1] + resp_runs[:1] + flow_runs[:1]):
         rep.add_samples([{"scenario": json.loads(_scenario_class(r)), "ctl": [e.get("e") for e in r["ctl"]]}], 2)
 
     # ---- 5. canaries: the binding must reject corrupted runs
@@ -340,6 +378,21 @@ def run(tier, replay=None):
                             e["out"], e["by"] = out, "none"
                             break
                     can.append((cname, c4))
+            # an exchange that is cut right after its interim response although nobody died
+            fbase = next((r for r in hand + soft if r["cfg"]["crash"] == "none" and any(e.get("e") == "Interim" for e in r["ctl"])), None)
+            if fbase is not None:
+                c5 = json.loads(json.dumps(fbase))
+                rr = next(e["r"] for e in c5["ctl"] if e.get("e") == "Interim")
+                k = next(i for i, e in enumerate(c5["ctl"]) if e.get("e") == "Interim")
+                keep = []
+                for i, e in enumerate(c5["ctl"]):
+                    if i > k and e.get("r") == rr and e.get("e") in ("Interim", "SlotRelease"):
+                        continue
+                    if i > k and e.get("r") == rr and e.get("e") == "SlotEnd":
+                        e = dict(e, out="cut", by="none")
+                    keep.append(e)
+                c5["ctl"] = keep
+                can.append(("cut-after-interim", c5))
             def one_canary(item):
                 cname, cr = item
                 path = os.path.join(wd, "canary_%s.ndjson" % cname)
@@ -347,7 +400,7 @@ def run(tier, replay=None):
                     f.write(json.dumps(_clean(cr)) + "\n")
                 cfg = _write(wd, "trace_canary_%s.cfg" % cname, TRACE_CFG % dict(consts, succ="TRUE" if cr["cfg"]["mode"] == "handover" else "FALSE"))
                 return cname, vlib.tlc_trace("Trace_Handover", cfg, PID, path, timeout=600)
-            with concurrent.futures.ThreadPoolExecutor(max_workers=5) as cpool:
+            with concurrent.futures.ThreadPoolExecutor(max_workers=6) as cpool:
                 for cname, r in cpool.map(one_canary, can):
                     if r["accepted"]:
                         raise vlib.ToolError("canary %s was accepted: the trace specification binds nothing" % cname)
@@ -361,7 +414,11 @@ def run(tier, replay=None):
     if not rd["violated"]:
         raise vlib.ToolError("deviation QuiescedBeforeFlushed is not refuted by P_C10: the response stages bind nothing")
     vlib.log("deviation QuiescedBeforeFlushed: TLC counterexample to %s as expected" % rd["violated"])
-    rep.extra["deviation_selftest"] = {"QuiescedBeforeFlushed": rd["violated"]}
+    rd2 = fut_dev2.result()
+    if not rd2["violated"]:
+        raise vlib.ToolError("deviation ClosedAfterInterim is not refuted by P_C10: the flow stages bind nothing")
+    vlib.log("deviation ClosedAfterInterim: TLC counterexample to %s as expected" % rd2["violated"])
+    rep.extra["deviation_selftest"] = {"QuiescedBeforeFlushed": rd["violated"], "ClosedAfterInterim": rd2["violated"]}
     for name, fut in futs.items():
         r = fut.result()
         rep.add_tlc(r)
@@ -376,6 +433,8 @@ def run(tier, replay=None):
             vlib.require_actions_covered(r, need)
         if name == "mc_resp_handover" and thorough and not r["violated"]:
             vlib.require_actions_covered(r, ["Backend_SendPart", "Backend_Finish", "Client_ReadSome", "Old_ShutDownSessions", "Old_Die", "Tick_Deadline"])
+        if name == "mc_flow_handover" and thorough and not r["violated"]:
+            vlib.require_actions_covered(r, ["Backend_Interim", "Backend_Respond", "Client_FinishBody", "Client_SendHead", "Old_ShutDownSessions", "Old_Die", "Tick_Deadline"])
     pool.shutdown()
 
     rep.cov["traces_validated_against_impl"] = acc + summ["delivered"]
@@ -387,7 +446,9 @@ def run(tier, replay=None):
                        "bucket, order) with the size TLC predicts; protocol: distinct scenarios (mode, order of master steps, crash "
                        "point, listener set, stage x partial x release moment of two parked connections; for a connection parked in the "
                        "middle of its response: framing cl/chunked/close-delimited, backend closing or kept alive, H2 stream order, "
-                       "tail held behind exhausted windows or behind a full socket), each run recorded on "
+                       "tail held behind exhausted windows or behind a full socket; for an exchange parked in an intermediate stage: "
+                       "which one - body withheld until 100 Continue, one or two 103 Early Hints (H1, H2), upgrade handshake, early final "
+                       "response, pipelined second request), each run recorded on "
                        "real worker threads and decided by TLC against Trace_Handover.tla. distinct_nontrivial = distinct codec "
                        "cases + distinct scenario descriptors" % (consts["maxfds"], " x 6 protocol splits" if thorough else " (split picked by seed)"))
     rep.assumptions += [
@@ -397,6 +458,7 @@ def run(tier, replay=None):
         "clients and backends are prompt (backend delay 350 ms); client time-outs are 10 s, the acknowledgement is awaited 20 s",
         "response delivery: the worker's socket towards a client that does not read is given a small fixed send buffer by the harness (setsockopt from the same process; it stands for a host with a small tcp_wmem): left to itself Linux grows that buffer to megabytes and no tail ever waits in the worker's own buffer. Descriptors of the worker's sockets are only read (queue lengths) to steer and to measure a scenario, never for a verdict",
         "response delivery: the parked client never writes while it reads the end of a response (one WINDOW_UPDATE releases a tail held behind exhausted H2 windows, before anything is read): a write that reaches the worker after its close makes the kernel reset the connection and drop unsent data - the TCP reset problem of any close without lingering, not exercised here",
+        "intermediate stages: the mock backend holds its next message (100 Continue, 103, 101, early answer, answer to the first of two pipelined requests) until the orchestrating thread lets it go, 300-700 ms after the Processing notice of the stop; the final response follows an interim one 250 ms later; a tunnel (after 101) is not protected: a stop closes it like a TCP relay; a pipelined request that no backend ever saw may be served or dropped",
         "addresses of the longest textual class (zoned link-local IPv6, 58 characters) cannot be bound: for them the descriptor is a real socket but only its identity (inode), not getsockname, is compared",
     ]
     rep.finish()
